@@ -49,13 +49,17 @@ func (bb *DefaultBallotBroadcaster) Ballot(
 func (bb *DefaultBallotBroadcaster) Broadcast(bl base.Ballot) error {
 	l := bb.Log().With().Interface("ballot", bl).Logger()
 
-	if err := bb.set(bl); err != nil {
+	// NOTE local node broadcasts only one ballot for each stage point; if the
+	// other ballot of local is already in the pool, the ballot of the pool is
+	// broadcasted instead.
+	nbl, err := bb.set(bl)
+	if err != nil {
 		l.Error().Err(err).Msg("failed to set ballot")
 
 		return err
 	}
 
-	if err := bb.broadcastFunc(bl); err != nil {
+	if err := bb.broadcastFunc(nbl); err != nil {
 		l.Error().Err(err).Msg("failed to broadcast ballot; keep going")
 
 		return err
@@ -66,17 +70,31 @@ func (bb *DefaultBallotBroadcaster) Broadcast(bl base.Ballot) error {
 	return nil
 }
 
-func (bb *DefaultBallotBroadcaster) set(bl base.Ballot) error {
+func (bb *DefaultBallotBroadcaster) set(bl base.Ballot) (base.Ballot, error) {
 	bb.l.Lock()
 	defer bb.l.Unlock()
 
 	if !bl.SignFact().Node().Equal(bb.local) {
-		return nil
+		return bl, nil
 	}
 
-	if _, err := bb.pool.SetBallot(bl); err != nil {
-		return errors.WithMessage(err, "set ballot to pool")
+	switch added, err := bb.pool.SetBallot(bl); {
+	case err != nil:
+		return nil, errors.WithMessage(err, "set ballot to pool")
+	case added:
+		return bl, nil
 	}
 
-	return nil
+	switch old, found, err := bb.pool.Ballot(
+		bl.Point().Point,
+		bl.Point().Stage(),
+		isaac.IsSuffrageConfirmBallotFact(bl.SignFact().Fact()),
+	); {
+	case err != nil:
+		return nil, errors.WithMessage(err, "get ballot from pool")
+	case !found:
+		return bl, nil
+	default:
+		return old, nil
+	}
 }
